@@ -226,6 +226,18 @@ def node_vals(g, nid):
             "ref": int(lab["ref"]), "tasks": int(lab["tasks"]), "pa": int(lab["pa"])}
 
 
+def load_meta(path):
+    """Per-execution records written by the harness; a harness that died leaves a truncated last line."""
+    out = []
+    if os.path.exists(path):
+        for l in open(path):
+            try:
+                out.append(json.loads(l))
+            except ValueError:
+                pass
+    return out
+
+
 def collect(ctx, exe, mode, sc, arg, kind, executions, timeout=900):
     base = os.path.join(ctx.scratch, "%s.%s" % (sc["name"], kind))
     scf = base + ".scn"
@@ -237,7 +249,47 @@ def collect(ctx, exe, mode, sc, arg, kind, executions, timeout=900):
         exs.append([{"e": "Crash", "rc": str(rc), "stderr": err[-300:]}])
     for e in exs:
         executions.append((sc["name"], kind, e))
-    return [json.loads(l) for l in open(meta)] if os.path.exists(meta) else []
+    return load_meta(meta)
+
+
+def full_transition_tests(g, max_tests, rng):
+    """One test per transition of the state graph (shortest path to the transition's source, the transition, then a
+    random walk to a terminal state): complete schedules, so the replay never depends on the scheduler's default
+    policy.  Returns [(labels, end node)]."""
+    from collections import deque
+    pred = {}
+    dq = deque()
+    for i in g.init:
+        pred[i] = None
+        dq.append(i)
+    while dq:
+        u = dq.popleft()
+        for lab, v in g.edges.get(u, ()):
+            if v not in pred:
+                pred[v] = (u, lab)
+                dq.append(v)
+
+    def path_to(u):
+        p = []
+        while pred[u] is not None:
+            u, lab = pred[u]
+            p.append(lab)
+        p.reverse()
+        return p
+    trans = [(u, lab, v) for u in g.edges if u in pred for lab, v in g.edges[u] if v != u]
+    if len(trans) > max_tests:
+        trans = rng.sample(trans, max_tests)
+    out = []
+    for u, lab, v in trans:
+        labels = path_to(u) + [lab]
+        while True:
+            es = [e for e in g.edges.get(v, ()) if e[1] != v]
+            if not es:
+                break
+            l2, v = rng.choice(es)
+            labels.append(l2)
+        out.append((labels, v))
+    return out
 
 
 def sched_of(labels):
@@ -309,12 +361,17 @@ def run(ctx):
         g = graphs[sc["name"]]
         seen_actions |= set(re.match(r"\w+", lab).group(0) for es in g.edges.values() for lab, _ in es)
         paths, total, exhaustive = tlc.maximal_paths(g, limit=nwalks, rng=ctx.rng)
+        known = set(sched_of(labels) for labels, end in paths)
+        ntests = 0
+        for labels, end in full_transition_tests(g, ntrans, ctx.rng):
+            if sched_of(labels) not in known:
+                known.add(sched_of(labels))
+                paths.append((labels, end))
+                ntests += 1
         scheds = [sched_of(labels) for labels, end in paths]
-        tests = tlc.transition_tests(g, max_tests=ntrans, rng=ctx.rng)
-        tsched = sorted(set(sched_of(t) for t in tests) - set(scheds))
         schedf = os.path.join(ctx.scratch, sc["name"] + ".sched")
         with open(schedf, "w") as f:
-            f.write("\n".join(scheds + tsched) + "\n")
+            f.write("\n".join(scheds) + "\n")
         metas = collect(ctx, exe, "replay", sc, schedf, "replay", executions)
         for (labels, end), s, m in zip(paths, scheds, metas):
             want = node_vals(g, end)
@@ -323,13 +380,13 @@ def run(ctx):
                 ctx.divergences += 1
                 ctx.sample({"divergence": {"scenario": sc["name"], "threads": sc["threads"], "schedule": s, "real_schedule": m["sched"],
                                            "model": want, "real": got}}, limit=6)
-        if len(metas) != len(scheds) + len(tsched):
+        if len(metas) != len(scheds):
             ctx.divergences += 1
-            ctx.sample({"divergence": {"scenario": sc["name"], "schedules": len(scheds) + len(tsched), "executed": len(metas)}}, limit=6)
-        total_sched += len(scheds) + len(tsched)
+            ctx.sample({"divergence": {"scenario": sc["name"], "schedules": len(scheds), "executed": len(metas)}}, limit=6)
+        total_sched += len(scheds)
         destroyed = sum(1 for m in metas if m.get("destroyed"))
         info = {"name": sc["name"], "threads": sc["threads"], "model_states": len(g.nodes), "model_paths_total": total,
-                "walks_replayed": len(scheds), "transition_tests": len(tsched), "paths_exhaustive": exhaustive,
+                "walks_replayed": len(scheds) - ntests, "transition_tests": ntests, "paths_exhaustive": exhaustive,
                 "refcount_reached_zero_in": destroyed}
         if sc["name"] in EXPLORE:
             metas = collect(ctx, exe, "explore", sc, str(20000 if ctx.quick else 400000), "explore", executions, timeout=1500)
